@@ -5,5 +5,7 @@ cd "$(dirname "$0")/.."
 mkdir -p coq/Gen coq/Cases replays evidence
 sh tools/gen_coqproject.sh
 cd coq
-timeout 3000 make -j"$(nproc)" 2>&1 | tail -5
+# -k: a file that fails does not stop the others (each check rebuilds what it needs and reports);
+# every single coqc is bounded.
+timeout 3000 make -k -j"$(nproc)" COQC="timeout 900 coqc" 2>&1 | tail -5 || true
 echo "setup done"
